@@ -410,6 +410,20 @@ pub fn run(sh: &mut Shard) {
         let mut g = rng.fork(999_999);
         run_project(sh, &files, &mut g, 1, "inherit");
     }
+    if sh.args.shard == 1 % sh.args.nshards {
+        // a fixed project of files with the same layout (round e): every declaration of file 0 sits at the byte range of another
+        // declaration in file 1, so a symbol looked up by its range alone can be confused with its twin in the other file
+        let files = vec![
+            "FUNCTION_BLOCK Pump\nVAR_INPUT inlet : DINT; END_VAR\nVAR_OUTPUT flow : DINT; END_VAR\nVAR gain : DINT := DINT#2; END_VAR\nflow := inlet * gain;\nEND_FUNCTION_BLOCK\n".to_string(),
+            "FUNCTION_BLOCK Tank\nVAR_INPUT level : DINT; END_VAR\nVAR_OUTPUT fill : DINT; END_VAR\nVAR step : DINT := DINT#3; END_VAR\nfill := level + step;\nEND_FUNCTION_BLOCK\n".to_string(),
+            "PROGRAM Main\nVAR p : Pump; t : Tank; a : DINT; b : DINT; END_VAR\np(inlet := DINT#4);\nt(level := DINT#5);\na := p.flow;\nb := t.fill;\nEND_PROGRAM\n\nCONFIGURATION Conf\nPROGRAM P1 : Main;\nEND_CONFIGURATION\n".to_string(),
+        ];
+        let mut g = rng.fork(999_998);
+        run_project(sh, &files, &mut g, 1, "twin");
+        // and the same twins in the other order (which file is loaded first decides which symbol a range lookup meets first)
+        let files2 = vec![files[1].clone(), files[0].clone(), files[2].clone()];
+        run_project(sh, &files2, &mut g, 1, "twin");
+    }
     let mut i = 0u64;
     while sh.time_left() {
         i += 1;
